@@ -107,7 +107,24 @@ func payloadOf(m Msg) []byte {
 	return vlib.GenPayload(kind, m.Len, m.Seed)
 }
 
+// maxSegment bounds one read: no transport hands the parser more than its read buffer at a time, and the
+// library's handling of a partly consumed read is quadratic in the size of that read (negligible for real
+// reads, half a minute of memmove for a 3 MiB "read" holding 27 000 frames).
+const maxSegment = 256 << 10
+
 func segments(c Case, wire []byte) [][]byte {
+	var out [][]byte
+	for _, s := range segments0(c, wire) {
+		for len(s) > maxSegment {
+			out = append(out, s[:maxSegment])
+			s = s[maxSegment:]
+		}
+		out = append(out, s)
+	}
+	return out
+}
+
+func segments0(c Case, wire []byte) [][]byte {
 	switch c.CutMode {
 	case 1:
 		var segs [][]byte
@@ -433,6 +450,14 @@ func gen(big int) func(t *rapid.T) Case {
 			m.Len = genLen(t, c.FrameLimit, big)
 			if c.FrameLimit <= 2 && m.Len > 3000 {
 				m.Len = 3000 // a 1-byte frame limit makes one frame per byte; keep it affordable
+			}
+			if c.Alloc == "aligned" {
+				// the size-aligned allocator reallocates on every Append once a buffer is above its largest
+				// class (32 KiB): reassembling a message costs frames x length / 2 bytes of copying. Keep that
+				// below about 2 GB per message (a cost bound, the statement says nothing about speed)
+				for m.Len > 32768 && (m.Len/c.FrameLimit+1)*(m.Len/2) > 2<<30 {
+					m.Len /= 2
+				}
 			}
 			if m.Text {
 				m.Kind = rapid.SampledFrom([]string{"ascii", "utf8", "pattern"}).Draw(t, "kind")
